@@ -36,7 +36,8 @@ META = {
                    "revision of the left-hand history and number<->id conversions are inverse; the dict/list-filter dotted "
                    "lookups of the code are inverse bijections over ANY merge-sorted list with distinct ids and revnos; the "
                    "Gallina merge sort lists exactly the present ancestors of the tip once, its depth-0 entries are the "
-                   "left-hand history numbered 1..n; each specifier form resolves to the revision its definition names. "
+                   "left-hand history numbered 1..n (the same numbers revision_id_to_revno computes), all other entries get "
+                   "three-component revnos; each specifier form resolves to the revision its definition names. "
                    "PARTIAL: the real numbering is computed by compiled vcsgraph (outside /repo); its agreement with the "
                    "Gallina merge sort, and the distinctness of the dotted revnos it assigns, are correspondence/oracle "
                    "facts checked on every generated history, not theorems."),
@@ -168,7 +169,7 @@ def _specs_for(rng, g, tip, tags, tier):
 
 
 def _graphs(rng, tier):
-    ndag, maxn = (12, 11) if tier == "quick" else (150, 14)
+    ndag, maxn = (12, 11) if tier == "quick" else (110, 14)
     out = [list(map(list, g)) for g in msortlib.FIXED]
     for i in range(ndag):
         out.append(daglib.gen_dag(rng, rng.randint(3, maxn), p_merge=0.3 + 0.3 * rng.random(),
